@@ -27,6 +27,21 @@ def resp(name, tag=b""):
     return frame(encode(name, tag))
 
 
+def req_len(name):
+    """length of the framed ClientCompatRequest{test_name: name} (4-byte prefix + field 1)"""
+    name = name.encode() if isinstance(name, str) else name
+    return 4 + 2 + len(name)
+
+
+def send_act(i, name, kind=0, k=0):
+    """SendCheck: kind 0 ordinary, 1 request that cannot be marshalled, 2 stdin fails after k bytes (not a closed pipe)"""
+    if kind == 0:
+        return [SC, i, name]
+    if kind == 1:
+        return [SC, i, name, 1]
+    return [SC, i, name, 2, k]
+
+
 OVERSIZE = (MAXSZ + 1).to_bytes(4, "big")
 # bodies that protobuf-go rejects (and the model's decoder does not recognise)
 GARBAGE = [bytes([10, 5, 97]), bytes([255]), bytes([15]), bytes([10]), bytes([8]), bytes([10, 1, 97, 26, 9, 10, 1])]
@@ -74,6 +89,8 @@ class Sim:
         self.pending = {}
         self.phase = {}
         self.names = {}
+        self.kinds = {}           # request -> (kind, instant): see send_act
+        self.noop = None          # instant-failing sender refused at the lock: the harness wants its WriteFail anyway
         self.reader = "run"
         self.eof_reason = False
         self.seen = set()
@@ -96,6 +113,7 @@ class Sim:
         s.pending = dict(self.pending)
         s.phase = dict(self.phase)
         s.names = dict(self.names)
+        s.kinds = dict(self.kinds)
         s.seen = set(self.seen)
         s.acts = list(self.acts)
         return s
@@ -112,9 +130,19 @@ class Sim:
             return "stop"
         return "ok"
 
+    def kind(self, i):
+        return self.kinds.get(i, (0, False))[0]
+
+    def instant(self, i):
+        return self.kinds.get(i, (0, False))[1]
+
     def forced(self):
         if self.checked is not None:
             return [SL, self.checked]
+        if self.noop is not None:
+            return [WFAIL, self.noop, self.kind(self.noop)]
+        if self.mu is not None and self.instant(self.mu):
+            return [WFAIL, self.mu, self.kind(self.mu)]     # the write fails without touching the pipe
         if self.mu is not None and not self.in_open:
             return [WFAIL, self.mu]
         if self.mu is None and self.blocked is not None:
@@ -132,6 +160,8 @@ class Sim:
             i, n = a[1], a[2]
             n = n.encode() if isinstance(n, str) else n
             self.names[i] = n
+            kd = a[3] if len(a) > 3 else 0
+            self.kinds[i] = (kd, kd == 1 or (kd == 2 and a[4] % req_len(n) == 0))
             if self.err:
                 self.phase[i] = "ret"
             else:
@@ -150,6 +180,8 @@ class Sim:
             n = self.names[i]
             if self.closed or n in self.pending:
                 self.phase[i] = "ret"
+                if self.instant(i):
+                    self.noop = i
             else:
                 self.pending[n] = i
                 self.phase[i] = "writing"
@@ -159,6 +191,10 @@ class Sim:
             self.mu = None
         elif op == WFAIL:
             i = a[1]
+            if self.noop == i:
+                self.noop = None
+            if self.phase.get(i) != "writing":
+                return
             n = self.names[i]
             if self.pending.get(n) is not None:
                 del self.pending[n]
@@ -266,13 +302,14 @@ def case_of(sim):
     return ["c10.script", sim.acts, ids]
 
 
-NAMES = ["a", "b", "c"]
+NAMES = ["a", "b", "c", "d"]
 
 
 def systematic(quick):
     """every request set x answer order x ending, in a few interleaving shapes"""
-    for n in (1, 2, 3):
-        for names in ([NAMES[:n]] + ([["a", "a"]] if n == 2 else []) + ([["a", "b", "a"]] if n == 3 else [])):
+    for n in (1, 2, 3, 4):
+        for names in ([NAMES[:n]] + ([["a", "a"]] if n == 2 else []) + ([["a", "b", "a"]] if n == 3 else [])
+                      + ([["a", "b", "a", "b"]] if n == 4 and not quick else [])):
             distinct = sorted(set(names))
             orders = []
             for k in range(len(distinct) + 1):
@@ -285,12 +322,16 @@ def systematic(quick):
                     endings.append(("dupresp",))
                 cutname = unanswered[0] if unanswered else "zz"
                 fr = resp(cutname, b"t")
-                cuts = range(1, len(fr)) if (not quick or len(order) <= 1) else (1, 3, 4, 5, len(fr) - 1)
+                cuts = range(1, len(fr)) if (not quick or (len(order) <= 1 and n < 4)) else (1, 3, 4, 5, len(fr) - 1)
+                if quick and n == 4 and len(order) >= 2:
+                    cuts = (4, len(fr) - 1)
                 for k in cuts:
                     endings.append(("cut", fr[:k], k % 2))
                 for gi in range(1, len(GARBAGE)):
                     if not quick or len(order) == 0:
                         endings.append(("garbage", gi))
+                if quick and n == 4 and len(order) >= 3:
+                    endings = [e for e in endings if e[0] in ("exit", "unknown", "dupresp", "cut", "none")]
                 for shape in ("batch", "pingpong", "early"):
                     for ending in endings:
                         yield from shape_case(names, order, ending, shape)
@@ -392,7 +433,7 @@ def random_walk(rng, maxlen, nreq):
         if next_id < nreq and sim.can_send():
             opts += ["send"] * 5
         if sim.mu is not None and sim.alive and sim.in_open:
-            opts += ["wok"] * 5
+            opts += (["wok"] if sim.kind(sim.mu) == 0 else ["wother"]) * 5
         if sim.alive and sim.out_open:
             opts += ["out"] * 5
             opts += ["cco"]
@@ -413,10 +454,18 @@ def random_walk(rng, maxlen, nreq):
         o = rng.choice(opts)
         if o == "send":
             n = rng.choice(pool[:rng.choice([1, 2, 3, 5])])
-            sim.apply([SC, next_id, n])
+            r = rng.random()
+            if r < 0.8:
+                sim.apply(send_act(next_id, n))
+            elif r < 0.88:
+                sim.apply(send_act(next_id, n, 1))
+            else:
+                sim.apply(send_act(next_id, n, 2, rng.randrange(0, 3 * req_len(n))))
             next_id += 1
         elif o == "wok":
             sim.apply([WOK, sim.mu])
+        elif o == "wother":
+            sim.apply([WFAIL, sim.mu, 2])
         elif o == "out":
             if partial is not None:
                 data, partial = partial, None
@@ -465,14 +514,22 @@ def random_walk(rng, maxlen, nreq):
     return case_of(sim)
 
 
-def exhaustive(depth, nreq):
-    """every forceable script over a small alphabet up to `depth` free choices"""
+def exhaustive(depth, nreq, kinds=False):
+    """every forceable script over a small alphabet up to `depth` free choices
+    (kinds: each request also as one that cannot be marshalled / whose write fails mid-message)"""
     def alphabet(sim, nsent):
         acts = []
         if nsent < nreq and sim.can_send():
-            acts.append(("send", [SC, nsent, NAMES[nsent] if nsent < 2 else "a"]))
+            nm = NAMES[nsent] if nsent < 2 else "a"
+            acts.append(("send", [SC, nsent, nm]))
+            if kinds:
+                acts.append(("send", send_act(nsent, nm, 1)))
+                acts.append(("send", send_act(nsent, nm, 2, 5)))
         if sim.mu is not None and sim.alive and sim.in_open:
-            acts.append(("wok", [WOK, sim.mu]))
+            if sim.kind(sim.mu) == 0:
+                acts.append(("wok", [WOK, sim.mu]))
+            else:
+                acts.append(("wother", [WFAIL, sim.mu, 2]))
         if sim.alive and sim.out_open:
             for x in sorted(set(list(sim.pending) + list(sim.seen)))[:2]:
                 acts.append(("out", [COUT, resp(x, b"r" + x)]))
@@ -512,6 +569,172 @@ def exhaustive(depth, nreq):
     yield from rec(Sim(), depth, 0)
 
 
+def drain(sim):
+    while sim.forced() is not None:
+        sim.apply(sim.forced())
+
+
+def write_failures(quick):
+    """the three failure kinds of sendRequest's write path (marshalling before any byte / closed pipe / another
+    pipe error after k bytes) at every request position, in several surroundings; afterwards the same test
+    name is sent again, and the script is brought to its end (drain)"""
+    for n in ((1, 2, 3) if quick else (1, 2, 3, 4)):
+        for pos in range(n):
+            nm = NAMES[pos]
+            L = req_len(nm)
+            specs = [(1, 0)] + [(2, k) for k in sorted({0, 1, 3, 4, 5, L - 1, L, L + 2})] + [(3, 0), (4, 0)]
+            for kind, k in specs:                     # 3: stdin closed by the client, 4: process exits (kind 0 request)
+                for answers in ("none", "before", "early", "after"):
+                    for park in (None, "same", "other"):
+                        for ending in ("exit", "exit-failed", "closeout", "unknown", "cut"):
+                            if quick and n == 3 and ending in ("unknown", "exit-failed") and answers in ("early",):
+                                continue
+                            c = write_failure_case(n, pos, kind, k, answers, park, ending)
+                            if c is not None:
+                                yield c
+
+
+def write_failure_case(n, pos, kind, k, answers, park, ending):
+    sim = Sim()
+    nid = n
+
+    def answer(x):
+        if sim.alive and sim.out_open and x.encode() in sim.pending:
+            sim.apply([COUT, resp(x, b"r-" + x.encode())])
+            if sim.can_rstep():
+                sim.apply([RSTEP])
+                drain(sim)
+
+    for i in range(n):
+        nm = NAMES[i]
+        if i != pos:
+            sim.apply([SC, i, nm])
+            drain(sim)
+            if sim.mu == i and sim.in_open and sim.alive:
+                sim.apply([WOK, i])
+                drain(sim)
+            if answers == "before" and i < pos:
+                answer(nm)
+            continue
+        # the request whose write fails
+        sim.apply(send_act(i, nm, kind if kind in (1, 2) else 0, k))
+        if sim.checked == i:
+            sim.apply([SL, i])
+        held = sim.mu == i and not sim.instant(i)
+        if park is not None:
+            if not held or not sim.can_send():
+                return None                           # nobody can wait behind a write that fails at once
+            sim.apply([SC, nid, nm if park == "same" else "p"])
+            nid += 1
+        if answers == "early" and held:
+            answer(nm)                                # the client answers the request it has not finished reading
+        if held:
+            if kind == 2:
+                sim.apply([WFAIL, i, 2])
+            elif kind == 3:
+                sim.apply([CCI])
+            elif kind == 4:
+                sim.apply([PEXIT, 0, 1])
+        drain(sim)
+        if sim.mu is not None and sim.in_open and sim.alive and sim.kind(sim.mu) == 0:
+            sim.apply([WOK, sim.mu])                  # the parked sender's own write
+            drain(sim)
+    if answers == "after":
+        for i in range(n):
+            answer(NAMES[i])
+    # the same test name once more (free again? refused because err is set?)
+    if sim.can_send():
+        sim.apply([SC, nid, NAMES[pos]])
+        nid += 1
+        drain(sim)
+        if sim.mu is not None and sim.in_open and sim.alive and sim.kind(sim.mu) == 0:
+            sim.apply([WOK, sim.mu])
+            drain(sim)
+    if sim.alive and sim.out_open and sim.reader == "run":
+        if ending == "exit":
+            sim.apply([PEXIT, 0, 0])
+        elif ending == "exit-failed":
+            sim.apply([PEXIT, 1, 0])
+        elif ending == "closeout":
+            sim.apply([CCO])
+        elif ending == "unknown":
+            sim.apply([COUT, resp("zz", b"u")])
+        elif ending == "cut":
+            sim.apply([COUT, resp(NAMES[0], b"t")[:7]])
+            sim.apply([CCO])
+        drain(sim)
+        if sim.can_rstep():
+            sim.apply([RSTEP])
+            drain(sim)
+    finish(sim)
+    return case_of(sim)
+
+
+def two_message_outputs(quick):
+    """the client writes TWO messages back to back; the output is cut after every byte (stdout closed / process
+    gone), or written in two pieces split at every byte"""
+    pairs = [("a", "b"), ("b", "a"), ("a", "a"), ("a", "zz"), ("zz", "a"), ("a", "c")]
+    for nreq in (2, 3):
+        for x, y in pairs:
+            if (y == "c" or x == "c") and nreq < 3:
+                continue
+            data = resp(x, b"r-" + x.encode()) + resp(y, b"r-" + y.encode())
+            for k in range(1, len(data) + 1):
+                for how in ("cco", "exit", "split", "split-late"):
+                    if k == len(data) and how in ("split", "split-late"):
+                        continue
+                    if quick and nreq == 3 and how == "split-late":
+                        continue
+                    sim = Sim()
+                    for i in range(nreq):
+                        sim.apply([SC, i, NAMES[i]])
+                        drain(sim)
+                        sim.apply([WOK, i])
+                        drain(sim)
+                    sim.apply([COUT, data[:k]])
+                    if how == "cco":
+                        sim.apply([CCO])
+                    elif how == "exit":
+                        # whatever the reader has not pulled is lost with an in-process pipe: let it read first
+                        for _ in range(2):
+                            if sim.can_rstep() and sim.rstep_kind() != "block":
+                                sim.apply([RSTEP])
+                                drain(sim)
+                        if sim.alive:
+                            sim.apply([PEXIT, k % 2, 0])
+                    else:
+                        if how == "split-late":
+                            for _ in range(2):
+                                if sim.can_rstep() and sim.rstep_kind() != "block":
+                                    sim.apply([RSTEP])
+                                    drain(sim)
+                        if sim.alive and sim.out_open:
+                            sim.apply([COUT, data[k:]])
+                    drain(sim)
+                    for _ in range(3):
+                        if sim.can_rstep() and sim.rstep_kind() != "block":
+                            sim.apply([RSTEP])
+                            drain(sim)
+                    finish(sim)
+                    yield case_of(sim)
+
+
+def proc_cases(rng, quick):
+    """c10.proc: the free-running in-process client that returns (nil / error) after reading r of n requests"""
+    names = ["t0", "Suite/t1", "t2", "t-three", "t4"]
+    for n in range(0, 5 if quick else 6):
+        for r in range(0, n + 1):
+            orders = []
+            for m in range(r + 1):
+                orders += [list(p) for p in itertools.permutations(range(r), m)]
+            if len(orders) > 70:
+                orders = orders[:1] + rng.sample(orders[1:], 40 if quick else 150)
+            for order in orders:
+                for failed in (0, 1):
+                    for peek in ((0, 1, 4, 6) if r < n else (0,)):
+                        yield ["c10.proc", names[:n], r, order, failed, peek]
+
+
 class C10(Prop):
     id = "C10"
     props = "C10_Props"
@@ -519,19 +742,32 @@ class C10(Prop):
     models = ("C10_Model",)
     consts = ("cc",)
     packages = {"cc": "internal/app/connectconformance"}
-    kinds = {"c10.script": "cc"}
+    kinds = {"c10.script": "cc", "c10.proc": "cc"}
     go_timeout = 600
-    rule = ("c10.script: scripts of atomic actions (sender err-check / lock+register / write ok / write failed, client output bytes, "
+    rule = ("c10.script: scripts of atomic actions (sender err-check / lock+register / write ok / write failed [closed pipe | request "
+            "that cannot be marshalled: invalid UTF-8 in a proto3 string field | scripted stdin failing with a non-pipe error after k "
+            "bytes], client output bytes, "
             "client closes stdout/stdin, process exit, exit notice, reader step, reader closeSend, reader drain, closeSend, stop, "
             "waitForResponses) forced on the REAL runClient/clientProcessRunner over the real runInProcess pipes by a scripted client, a "
             "gate on the reader's stdout, a gated whenDone and goroutine-state inspection for a sender parked on sendMu. "
             "systematic: 1-3 requests (distinct / duplicate names) x every answer order of every subset x every ending (exit ok/failed, "
             "unknown name, already-answered, oversize, 6 garbage bodies, stdout closed, output cut after every byte) x 3 interleaving "
             "shapes (client reads all then answers / answers as early as possible / answers while the request's write is in flight) "
-            "+ a late request; exhaustive: every forceable script of <= D free choices over a small alphabet (2 requests: D=7 quick, 8 thorough; 3 requests: D=6 / 7); "
+            "+ a late request (1-4 requests in both tiers); write-path failures: each failure kind (marshal / other error at byte "
+            "0,1,3,4,5,L-1,L,L+2 / stdin closed / process exit) at every request position x answers before/early/after x a sender of "
+            "the same or another name parked on sendMu x 5 endings + the same name sent again; two-message outputs cut after EVERY byte "
+            "(stdout closed / process exit) or split at every byte into two writes; exhaustive: every forceable script of <= D free "
+            "choices over a small alphabet (2 requests: D=8 quick, 9 thorough; 3 requests: D=7 / 8; with the three request kinds: D=5 / 6); "
             "random walks up to 40 actions with partial frames, several frames per write, parked senders. compared after EVERY action: "
             "isRunning(); at the end: per request the sendRequest result class and the callback invocations (count, name, own "
-            "response marker or error class), reader done, waitForResponses result class. extra: free-running -race stress")
+            "response marker or error class), reader done, waitForResponses result class. EVERY response object handed to a callback "
+            "is kept and read again at the end of the case (name, marker, digest of its deterministic encoding): a response that "
+            "changed after the callback returned shows as a disagreement with the model's `fired` values. "
+            "c10.proc: free-running client function on the real runInProcess (no gates) that reads r of n requests, answers a "
+            "permutation of a subset, reads 0/1/4/6 bytes of the next request and RETURNS nil / an error while the sender is inside "
+            "that write; compared with the model's canonical schedule (proc_script): per request result + callbacks, reader done, "
+            "waitForResponses, isRunning. Every wait of the Go side is bounded (15 s for the first hang of a binary): a hang is the "
+            "outcome (hang <where>) of that case. extra: free-running -race stress (responses kept and re-read there too)")
     trusted_base = ("Coq 8.16.1 kernel (vm_compute used, native_compute not)", "extraction (ExtrOcamlBasic only) + ocaml/driver.ml",
                     "vlib generators/comparator, Go overlay harness (harness/C10)",
                     "modelled not verified: io.Pipe semantics, sync.Mutex, atomic.Bool/Pointer, goroutine scheduling (one action per "
@@ -543,35 +779,49 @@ class C10(Prop):
                    "liveness needs the environment: an aborted or finished client process eventually exits (closing its pipe ends), "
                    "and a live client either reads a request being written or exits; the 20 s read timeout and the 3 s/5 s grace "
                    "periods of waitForResponses/stop are not modelled",
-                   "a zero-length response frame is not generated (io.Pipe blocks a zero-length Read until the next write)")
+                   "a zero-length response frame is not generated (io.Pipe blocks a zero-length Read until the next write)",
+                   "write path: which failure can happen to a request (cannot be marshalled / stdin fails with a non-pipe error) is "
+                   "data of the script; the model lets the non-pipe error happen at any time during the write (the real io.Pipe never "
+                   "produces one: the harness' stdin wrapper does); a write that fails before touching the pipe cannot be held by the "
+                   "harness, so lock+register and the failed write are forced back to back for such requests")
     level_text = ("Machine-checked proof (Coq) over ARBITRARY action lists of the transition system of clientProcessRunner: callbacks "
                   "fire at most once; at quiescence a request whose sendRequest returned nil has fired exactly once and one that was "
                   "refused never; a response callback carries the request's own name and a message the client wrote on its stdout; "
                   "after a reader failure every later send is refused, isRunning is false, the drain leaves nothing pending and "
-                  "waitForResponses returns; from every reachable state the system can be driven to completion (no deadlock). "
+                  "waitForResponses returns; a request whose sendRequest returned an error (err check, duplicate, closed, write failed by "
+                  "marshalling / closed pipe / any other pipe error) is never called back, and after a failed write its name is free "
+                  "again; the end of the client process - function returned nil OR an error, at any point - closes stdin so the writer in "
+                  "flight returns; from every reachable state the system can be driven to completion (no deadlock). "
                   "The model is tied to client_runner.go by forced-schedule differential runs on every check.")
     level_note = ("Trusted: Coq kernel, extraction, OCaml driver, harness. Model-code correspondence is sampled (systematic + "
                   "exhaustive small scope + random), not proved; only schedules the harness can force are compared (a sender cannot "
                   "be held between its err check and sendMu.Lock unless sendMu is held by a writer; the reader's closeSend and drain "
                   "run through once sendMu is free). Go's mutex/pipe/atomic semantics and data-race freedom are assumed (tested "
-                  "with -race). Time-outs are not modelled.")
+                  "with -race). Time-outs are not modelled. A panic of an in-process client function is not caught by "
+                  "runInProcess (it ends the whole test binary) and is not modelled; cmdProcess (OS processes) is C04's.")
     technique = "Coq invariant proofs over arbitrary action lists; forced-schedule differential against the real runner; -race stress"
 
     def nontrivial(self, case, res):
         return "(0 #" in res or "(1 #" in res
 
     def describe(self, case, g, m):
-        if g is not None and "737475636b" in g:
-            return "client multiplexer: the real runner got stuck / did not reach the expected quiescent point"
+        if g is not None and "68616e67" in g:
+            return ("client multiplexer: the real runner HANGS / does not reach the expected quiescent point "
+                    "(the impl line says where the harness gave up waiting)")
         return ("client multiplexer: callbacks / sendRequest results / isRunning / waitForResponses differ from the proved model "
                 "(model = repaired behaviour: the exit notice marks the runner as not running)")
 
     def generate(self, rng, tier):
         quick = tier == "quick"
-        yield from systematic(quick)
-        yield from exhaustive(7 if quick else 8, 2)
-        yield from exhaustive(6 if quick else 7, 3)
-        for _ in range(6000 if quick else 60000):
+        yield from proc_cases(rng, quick)
+        yield from write_failures(quick)
+        yield from two_message_outputs(quick)
+        yield from systematic(False)                     # (the reduced variant is kept for development runs)
+        yield from exhaustive(8 if quick else 9, 2)
+        yield from exhaustive(7 if quick else 8, 3)
+        yield from exhaustive(5 if quick else 6, 2, kinds=True)
+        yield from exhaustive(5 if quick else 6, 3, kinds=True)
+        for _ in range(10000 if quick else 80000):
             yield random_walk(rng, rng.randint(8, 40), rng.randint(1, 6))
 
     def _race_run(self, ctx, testname, rounds, timeout):
